@@ -2,12 +2,12 @@
    from dispatch.go) and of the documented semantics on an abstract state and bus, then arithmetic lemmas. *)
 From V.lib Require Import Bits.
 From V.model Require Import Uop Alu Cpu.
-From V.gen Require Import GenDispatch.
 From V.spec Require Import Sm83Spec.
-From V.proofs Require Import AluProofs CpuLemmas.
+From V.proofs Require Import AluProofs CpuLemmas ExpectedDispatch.
 From Coq Require Import ZArith ZifyN ZifyBool.
 
 Section StepIf.
+  Variable T : tables.
   Variable B : Type.
   Variable brd : B -> N -> B * N.
   Variable bwr : B -> N -> N -> B.
@@ -19,7 +19,7 @@ Section StepIf.
   Variable back : B -> N -> B.
   Hypothesis Hcor : forall b, bcorrupt b = b.
 
-  Notation step_if := (step_if B brd bwr btrig bcorrupt bime bset_ime bpending back).
+  Notation step_if := (step_if T B brd bwr btrig bcorrupt bime bset_ime bpending back).
   Notation mexec := (exec B brd bwr btrig bime bset_ime bpending back).
 
   Lemma step_if_done s b n : is_finished s = true -> step_if ((s, b), n) = ((s, b), n).
@@ -30,8 +30,34 @@ Section StepIf.
       ((set_cyc (S (cyc (fst (mexec u s b)))) (fst (mexec u s b)), snd (mexec u s b)), S n).
   Proof.
     intros H Hf Hu. unfold CpuLemmas.step_if. cbn [fst snd]. rewrite H.
-    rewrite (cycle_mid B brd bwr btrig bcorrupt bime bset_ime bpending back Hcor s b u Hf H Hu). reflexivity.
+    rewrite (cycle_mid T B brd bwr btrig bcorrupt bime bset_ime bpending back Hcor s b u Hf H Hu). reflexivity.
   Qed.
+
+  (* the same with the result of the micro-operation supplied through an equation, so that its evaluation is a
+     separate, small conversion problem *)
+  Lemma step_if_more_eq s b n u r : is_finished s = false -> fault s = None -> nth_error (cur s) (cyc s) = Some u ->
+    mexec u s b = r ->
+    step_if ((s, b), n) = ((set_cyc (S (cyc (fst r))) (fst r), snd r), S n).
+  Proof. intros H Hf Hu <-. apply step_if_more; assumption. Qed.
+
+  Lemma cycle_start_eq s b u s1 b1 r :
+    starts T B bime bpending s b ->
+    fetch T B brd (set_eip false s) b = (s1, b1) ->
+    nth_error (cur s1) 0 = Some u -> cyc s1 = 0%nat ->
+    mexec u s1 b1 = r ->
+    cycle T B brd bwr btrig bcorrupt bime bset_ime bpending back (s, b) = (set_cyc (S (cyc (fst r))) (fst r), snd r).
+  Proof.
+    intros Hst Hf Hu Hc <-.
+    rewrite (cycle_start T B brd bwr btrig bcorrupt bime bset_ime bpending back Hcor s b u Hst); rewrite Hf; cbn [fst snd];
+      [reflexivity | exact Hu | exact Hc].
+  Qed.
+
+  Lemma run_instr_chain s b x1 x2 x3 x4 x5 x6 x7 :
+    cycle T B brd bwr btrig bcorrupt bime bset_ime bpending back (s, b) = x1 ->
+    step_if (x1, 1%nat) = x2 -> step_if x2 = x3 -> step_if x3 = x4 -> step_if x4 = x5 -> step_if x5 = x6 ->
+    step_if x6 = x7 ->
+    run_instr T B brd bwr btrig bcorrupt bime bset_ime bpending back s b = x7.
+  Proof. intros <- <- <- <- <- <- <-. reflexivity. Qed.
 End StepIf.
 
 Tactic Notation "ev" :=
@@ -53,6 +79,13 @@ Tactic Notation "ev" "in" hyp(H) :=
        get_reg set_reg get_rp set_rp bc de hl imm16 pair16 log exec src_val dread dwrite inc_sp dec_sp inc_hl dec_hl do_rst do_push
        is_finished check_cond nth_error length Nat.eqb andb orb negb] in H.
 
+(* flatten states: nested setters become one constructor application whose fields are projections of the initial
+   state (the kernel's conversion is exponential in the nesting depth of record setters, linear on flat records) *)
+Tactic Notation "flat" :=
+  cbv beta iota zeta delta [set_ra set_rb set_rc set_rd set_re set_rf set_rh set_rl set_sp set_pc set_halted set_haltbug set_stopped set_eip set_u8a set_u8b set_m8a set_m8b set_cur set_cyc set_early set_mooneye set_fault set_trace cur cyc early trace fault halted haltbug stopped eip ra rb rc rd re rf rh rl sp pc u8a u8b m8a m8b mooneye set_xa set_xb set_xc set_xd set_xe set_xh set_xl set_xf set_xsp set_xpc set_xhalted set_xhaltbug set_xstopped set_xeip xa xb xc xd xe xh xl xf xsp xpc xhalted xhaltbug xstopped xeip]; cbn [fst snd].
+Tactic Notation "flat" "in" hyp(H) :=
+  cbv beta iota zeta delta [set_ra set_rb set_rc set_rd set_re set_rf set_rh set_rl set_sp set_pc set_halted set_haltbug set_stopped set_eip set_u8a set_u8b set_m8a set_m8b set_cur set_cyc set_early set_mooneye set_fault set_trace cur cyc early trace fault halted haltbug stopped eip ra rb rc rd re rf rh rl sp pc u8a u8b m8a m8b mooneye] in H; cbn [fst snd] in H.
+
 (* side conditions of the arithmetic lemmas *)
 Ltac side :=
   first [ assumption | reflexivity
@@ -63,17 +96,32 @@ Ltac side :=
 
 Ltac arith :=
   rewrite ?alu_ok, ?inc8_ok, ?dec8_ok, ?rot_ok, ?rot_a_ok, ?daa_ok, ?cpl_ok, ?scf_ok, ?ccf_ok, ?addhl_ok, ?addsp_ok,
-          ?jr_target_ok, ?sub16_1 by side.
+          ?jr_target_ok, ?sub16_1, ?lor_hi_lo, ?bit_test_ok, ?bit_res_ok, ?bit_set_ok by side.
 
 (* Hop : snd (brd b (pc s)) = <numeral> *)
 Ltac eval_fetch_normal Hf Hop :=
   match type of Hop with
   | _ = ?k =>
-      unfold fetch in Hf at 2; cbn [pc set_eip set_trace] in Hf; rewrite Hop in Hf;
+      unfold fetch in Hf at 2; cbn [pc set_eip set_trace eip ra rb rc rd re rf rh rl sp halted haltbug stopped u8a u8b m8a m8b cur cyc early mooneye fault trace] in Hf; rewrite Hop in Hf;
       cbn [N.eqb Pos.eqb] in Hf;
       let l := fresh "l" in
-      set (l := nth (N.to_nat k) normal_table []) in Hf; vm_compute in l; subst l;
+      cbn [t_normal t_prefix t_early expected_tables] in Hf;
+      set (l := nth (N.to_nat k) x_normal_table []) in Hf; vm_compute in l; subst l;
       let e := fresh "e" in
-      set (e := lookup_early k early_table) in Hf; vm_compute in e; subst e;
+      set (e := lookup_early k x_early_table) in Hf; vm_compute in e; subst e;
+      ev in Hf
+  end.
+
+(* CB page: Hop : snd (brd b pc) = 203, Hop2 : snd (brd (fst (brd b pc)) (add16 pc 1)) = <numeral> *)
+Ltac eval_fetch_cb Hf Hop Hop2 :=
+  match type of Hop2 with
+  | _ = ?k =>
+      unfold fetch in Hf at 2; cbn [pc set_eip set_trace eip ra rb rc rd re rf rh rl sp halted haltbug stopped u8a u8b m8a m8b cur cyc early mooneye fault trace] in Hf; rewrite Hop in Hf;
+      cbn [N.eqb Pos.eqb] in Hf;
+      cbn [pc set_eip set_trace set_pc set_cyc set_cur set_early eip ra rb rc rd re rf rh rl sp halted haltbug stopped u8a u8b m8a m8b cur cyc early mooneye fault trace] in Hf;
+      unfold add16 in Hf; rewrite Hop2 in Hf;
+      let l := fresh "l" in
+      cbn [t_normal t_prefix t_early expected_tables] in Hf;
+      set (l := nth (N.to_nat k) x_prefix_table []) in Hf; vm_compute in l; subst l;
       ev in Hf
   end.
